@@ -537,9 +537,21 @@ func (la *lockAnalysis) implsOf(m *types.Func) []*ssa.Function {
 // calleesOf: module functions a call may invoke (static, closure, interface CHA, func-field binding).
 func (la *lockAnalysis) calleesOf(call ssa.CallInstruction) []*ssa.Function {
 	var out []*ssa.Function
+	seen := map[*ssa.Function]bool{}
 	for _, f := range la.calleesOf0(call) {
-		if _, ok := la.info[f]; ok {
+		if _, ok := la.info[f]; ok && !seen[f] {
+			seen[f] = true
 			out = append(out, f)
+		}
+	}
+	// thorough tier: callees of dynamic calls (func values, interfaces) from the VTA call graph
+	if la.c.vtaCallees != nil {
+		for _, f := range la.c.vtaCallees[call] {
+			f = la.unwrapBound(f)
+			if _, ok := la.info[f]; ok && !seen[f] {
+				seen[f] = true
+				out = append(out, f)
+			}
 		}
 	}
 	return out
